@@ -2,6 +2,8 @@
 """Regenerate the table of section 8 of DESIGN.md from seeded/*/meta.json (strengthening notes are kept here)."""
 import glob, json, os, re
 NOTES = {
+ 'C01-F': 'caught by luck of the draw at first (one seed value) and missed after later generator changes; every catalogued macro / environment is now also wrapped in the body of a three-character macro called at the end of the text, and documents are cut behind macro calls - detected at every seed value tried',
+ 'C05-A': 'caught by luck of the draw at first and missed after later generator changes; paragraph separators with a comment followed by a blank-but-not-empty line added - detected at every seed value tried',
  'C01-B': 'missed at first; glossary entries got a long white-space run and blanks inside generated text are now checked (also caught by C04)',
  'C02-B': 'missed at first; definer macro (\\zzstore / \\zzcur) added to the catalogue',
  'C04-A': 'caught after the definer macro was added',
@@ -74,4 +76,4 @@ b = s.index('\n\n', a)
 head = '| seed | detected by | what it changes (from the author\'s notes) | strengthening |\n|------|-------------|--------------------------------------------|---------------|\n'
 s = s[:a] + head + '\n'.join(rows) + s[b:]
 open(p, 'w', encoding='utf-8').write(s)
-print(len(rows), 'seeds;', sum(1 for r in rows if 'missed at first' in r), 'needed strengthening')
+print(len(rows), 'seeds;', sum(1 for r in rows if 'missed' in r.rsplit('|', 2)[-2]), 'needed strengthening')
